@@ -697,6 +697,8 @@ class DictRefsContainer(RefsContainer):
           timezone: Optional timezone for reflog
           message: Optional message for reflog
         """
+        self._check_refname(name)
+        self._check_refname(other)
         old = self.follow(name)[-1]
         new = SYMREF + other
         self._refs[name] = new
@@ -780,6 +782,7 @@ class DictRefsContainer(RefsContainer):
         Returns:
           True if the add was successful, False otherwise.
         """
+        self._check_refname(name)
         self._check_ref_value(ref)
         if name in self._refs:
             return False
